@@ -153,6 +153,9 @@ type executor struct {
 	curTag   string // entity tag (wire form) of the target just before a conditional request, "" = none
 	curKnown bool
 
+	neighbour     http.Handler // a second file server of the same process with another root
+	neighbourRoot string
+
 	bk     *bkCore // recording backend of a dav server (nil for the plain file server)
 	calBk  *calBackend
 	cardBk *cardBackend
@@ -260,6 +263,21 @@ func (ex *executor) run() {
 	if p.Config.Host != "" {
 		planHost = p.Config.Host
 	}
+	// the server process's local zone is part of the configuration space
+	time.Local = time.UTC
+	if p.Config.ZoneOffsetS != 0 {
+		time.Local = time.FixedZone("vsim", p.Config.ZoneOffsetS)
+	}
+	defer func() { time.Local = time.UTC }()
+	if p.Config.Neighbour && (p.Config.Store == "" || p.Config.Store == "localfs") {
+		// another tenant of the same process: its own root, the same names
+		other := realfp.Join(w.Sandbox, "neighbour-root")
+		realos.MkdirAll(realfp.Join(other, "a"), 0o755)
+		realos.WriteFile(realfp.Join(other, "a", "b"), []byte("the neighbour's"), 0o644)
+		ex.neighbourRoot = other
+		ex.neighbour = &webdav.Handler{FileSystem: webdav.LocalFileSystem(other)}
+		w.outside = OutsideListing(w.Sandbox, w.Root)
+	}
 	switch p.Config.Store {
 	case "", "localfs":
 		ex.fs = webdav.LocalFileSystem(spellRoot(w.Root, p.Config.RootForm))
@@ -328,6 +346,16 @@ func spellRoot(root, form string) string {
 
 func (ex *executor) applySetup(op SetupOp) {
 	now := time.Now()
+	switch op.MTime {
+	case "epoch":
+		now = time.Unix(0, 0)
+	case "ancient":
+		now = time.Date(1901, 12, 13, 20, 45, 53, 0, time.UTC)
+	case "future":
+		now = time.Date(2261, 1, 1, 0, 0, 0, 0, time.UTC)
+	case "odd-ns":
+		now = time.Date(1999, 12, 31, 23, 59, 59, 999999999, time.UTC)
+	}
 	switch {
 	case op.Mkcol != "":
 		if ex.plan.Config.Store == "memfs" {
@@ -480,6 +508,23 @@ func (ex *executor) rawStep(idx int, st *Step) {
 	st = ex.resolve(idx, st)
 	if ex.stop {
 		return
+	}
+	if ex.neighbour != nil && !st.Probe {
+		// the neighbour is asked for the same name just before (read-only)
+		if req, _ := buildRequest(&Step{Method: "PROPFIND", Target: st.Target, Headers: [][2]string{{"Depth", "0"}}}); req != nil {
+			saveRoot := ex.seam.Root
+			ex.seam.Root = ex.neighbourRoot
+			ex.seam.BeginStep(nil)
+			func() {
+				defer func() { recover() }()
+				req.Body = http.NoBody
+				ex.neighbour.ServeHTTP(httptest.NewRecorder(), req)
+			}()
+			if len(ex.seam.Outside) > 0 {
+				ex.finding(Violation{Prop: "C03", Clause: "outside-access", Class: "neighbour PROPFIND", Msg: fmt.Sprintf("the neighbouring file server left ITS root: %s", strings.ReplaceAll(strings.Join(ex.seam.Outside, ", "), ex.w.Sandbox, "$SB")), Step: idx})
+			}
+			ex.seam.Root = saveRoot
+		}
 	}
 	ex.seam.BeginStep(st.Faults)
 	if ex.bk != nil {
@@ -636,6 +681,14 @@ func (ex *executor) resolve(idx int, st *Step) *Step {
 	}
 	for i, h := range c.Headers {
 		v := abs(h[1])
+		if i := strings.Index(v, "${tag:current}"); i >= 0 && v != "${tag:current}" {
+			// the current tag embedded in a larger (malformed or list) value
+			cur := ex.curTag
+			if cur == "" {
+				cur = "\"vsim-unknown-fallback\""
+			}
+			v = strings.ReplaceAll(v, "${tag:current}", cur)
+		}
 		if strings.HasPrefix(v, "${tag:") {
 			cur := ex.curTag
 			switch v {
@@ -889,6 +942,8 @@ func abstractShape(s map[string]model.Entry) string {
 	}
 	return b.String()
 }
+
+func normPath(p string) string { return model.Normalise(p).Path }
 
 func hasPath(s map[string]model.Entry, p string) bool { _, ok := s[p]; return ok }
 
